@@ -83,6 +83,25 @@ func Run(r *core.Run) {
 	for _, u := range []string{`"HTTPS://Upper.example/Me"`, `"https://x.example/jos\u00e9"`, `"https://x.example/me#"`, `"http://x.example/%7Euser"`, `"did:Example:ABC"`, `"https://x.example/a b"`} {
 		docs = append(docs, `{"publicKey":[`+k[0]+`],"alsoKnownAs":[`+u+`,"https://plain.example/"]}`, `{"alsoKnownAs":[`+u+`]}`)
 	}
+	// keys of the other allowed types and JWK forms: OKP keys have no y member (RFC 8037), RSA keys have n and e, a JWK may carry
+	// further members of any JSON type (RFC 7517: kid, alg, key_ops, ext, x5c)
+	{
+		p256 := keys.New("P-256", 71).JWK()
+		sk := keys.New("secp256k1", 71).JWK()
+		forms := []string{
+			`{"id":"x1","type":"X25519KeyAgreementKey2019","purposes":["keyAgreement"],"publicKeyJwk":{"kty":"OKP","crv":"X25519","x":"hSDwCYkwp1R0i33ctD73Wg2_Og0mOBr066SpjqqbTmo"}}`,
+			`{"id":"e1","type":"JsonWebKey2020","purposes":["authentication"],"publicKeyJwk":{"kty":"OKP","crv":"Ed25519","x":"` + keys.New("Ed25519", 71).JWK().X + `"}}`,
+			`{"id":"e4","type":"JsonWebKey2020","purposes":["assertionMethod"],"publicKeyJwk":{"kty":"OKP","crv":"Ed448","x":"X9dEm1m0Yf0s54fsYWrUah2hNCSFpw4fig6nXYDpZ3jt8SR2m0bHBhvWeD3x5Q9s0foavq_oJWGA"}}`,
+			`{"id":"r1","type":"JsonWebKey2020","purposes":["authentication"],"publicKeyJwk":{"kty":"RSA","n":"sXchDaQebHnPiGvyDOAT4saGEUetSyo9MKLOoWFsueri23bOdgWp4Dy1WlUzewbgBHod5pcM9H95GQRV3JDXboIRROSBigeC5yjU1hGzHHyXss8UDprecbAYxknTcQkhslANGRUZmdTOQ5qTRsLAt6BTYuyvVRdhS8exSZEy_c4gs_7svlJJQ4H9_NxsiIoLwAEk7-Q3UXERGYw_75IDrGA84-lA_-Ct4eTlXHBIY2EaV7t7LjJaynVJCpkv4LKjTTAumiGUIuQhrNhZLuF_RJLqHpM2kgWFLU7-VTdL1VbC2tejvcI2BlMkEpk1BzBZI0KQB0GaDWFLN-aEAw3vRw","e":"AQAB"}}`,
+			`{"id":"c1","type":"EcdsaSecp256k1VerificationKey2019","purposes":["authentication"],"publicKeyJwk":{"kty":"EC","crv":"secp256k1","x":"` + sk.X + `","y":"` + sk.Y + `"}}`,
+			`{"id":"b1","type":"Bls12381G2Key2020","purposes":["assertionMethod"],"publicKeyBase58":"25ETdUZDVnME6yYuAMjFRCnCPcDmYQcoZDcZuXAfeMhXPvjZg35QmZ7uctBcovA69YDM3Jf7s5BHo4u1y89nY6mHiji8yphZ4AMm4iNCRh35edSg76Dkasu3MY2VS9LnuaVQ"}`,
+			`{"id":"j1","type":"JsonWebKey2020","purposes":["authentication"],"publicKeyJwk":{"kty":"EC","crv":"P-256","x":"` + p256.X + `","y":"` + p256.Y + `","kid":"key-1","alg":"ES256","use":"sig","key_ops":["verify"],"ext":true,"x5c":["MIIB"]}}`,
+		}
+		for _, f := range forms {
+			docs = append(docs, `{"publicKey":[`+f+`]}`, `{"publicKey":[`+k[0]+`,`+f+`],"service":[`+s[0]+`],"scalar":"v"}`)
+		}
+		docs = append(docs, `{"publicKey":[`+strings.Join(forms, ",")+`]}`)
+	}
 	// documents without keys as well
 	docs = append(docs, `{"service":[`+s[0]+`]}`, `{"alsoKnownAs":[`+a[0]+`]}`, `{"scalar":"v"}`, `{}`)
 	r.Extra["documents"] = len(docs)
